@@ -42,7 +42,9 @@ def check(repo: Repo, rep, tier):
     from .C03 import source_bom
 
     source_bom(repo, rep)
-    from .C13 import files_registered, persist_remove
+    from .C13 import files_registered, persist_remove, remove_literal
+
+    remove_literal(repo, rep)
 
     # what is registered as a file with snapshots is parsed at session end; the unused externals are computed from the rewritten files
     files_registered(repo, rep)
@@ -979,7 +981,7 @@ def apply_routing(repo: Repo, rep):
     rep.floor("R-APPLY-ROUTING", "parent branches", b_n, 3)
 
 
-DISPLAY_ATTRS = ("elts", "keys", "values", "keywords")
+DISPLAY_ATTRS = ("elts", "keys", "values", "keywords", "args")
 
 
 def _kind_predicate(repo: Repo, f, call: ast.Call, base: str) -> bool:
@@ -1061,10 +1063,71 @@ def node_kind_tested(repo: Repo, rep):
             through = reach(cfg, [cfg.entry], blocked_edges=kind_edges + none_edges, blocked_nodes=none_stores)
             tested = bool(kind_edges) and not any(nd in through for nd in at)
             asserted = bool(assert_edges)
+            if not tested and f.parent is not None and isinstance(x.value, ast.Name) and x.value.id not in f.params:
+                # a nested function reading the node of the enclosing function: its definition stands behind the kind test there
+                pcfg = cfg_of(f.parent)
+                dn = [n_ for n_ in pcfg.live if n_.kind == "stmt" and n_.ast is f.node]
+                k_edges, n_edges, n_stores = [], [], []
+                for cn in pcfg.conds():
+                    e_ = cn.ast
+                    if isinstance(e_, ast.Call) and norm(e_.func) == "isinstance" and len(e_.args) == 2 and norm(e_.args[0]) == base and not any(b.kind == "assertfail" for b, l in cn.succ):
+                        k_edges.append((cn, "T"))
+                    t_ = norm(e_)
+                    if t_ == f"{base} is not None":
+                        n_edges.append((cn, "F"))
+                    elif t_ == f"{base} is None":
+                        n_edges.append((cn, "T"))
+                for st_ in pcfg.stmts(ast.Assign):
+                    if any(norm(t_) == base for t_ in st_.ast.targets) and isinstance(st_.ast.value, ast.Constant) and st_.ast.value.value is None:
+                        n_stores.append(st_)
+                thr = reach(pcfg, [pcfg.entry], blocked_edges=k_edges + n_edges, blocked_nodes=n_stores)
+                if k_edges and dn and not any(nd in thr for nd in dn):
+                    rep.ok("R-NODE-KIND-TESTED", f, x, f"`{norm(x)}`: the nested function is defined behind the kind test of {f.parent.qualname}")
+                    continue
             if not tested:
                 # a helper that receives a node it does not test: judged at its call sites (the caller tested) - accept parameters of private helpers
                 if isinstance(x.value, ast.Name) and x.value.id in f.params and (f.name.startswith("_") or f.parent is not None):
-                    rep.ok("R-NODE-KIND-TESTED", f, x, f"`{norm(x)}`: node handed to a helper by a caller that tested it")
+                    # ... which is checked: at every call of the helper the argument for that parameter is behind a kind test (or None)
+                    pidx = f.params.index(x.value.id) - (1 if f.is_method() else 0)
+                    cg_ = callgraph(repo)
+                    bad_call = None
+                    for cf, c_, how in cg_.callers.get(f.key, []):
+                        arg = c_.args[pidx] if 0 <= pidx < len(c_.args) else next((k.value for k in c_.keywords if k.arg == x.value.id), None)
+                        if arg is None or (isinstance(arg, ast.Constant) and arg.value is None):
+                            continue
+                        abase = norm(arg)
+                        ccfg = cfg_of(cf)
+                        k_edges, n_edges, n_stores = [], [], []
+                        for cn in ccfg.conds():
+                            e_ = cn.ast
+                            if isinstance(e_, ast.Call) and norm(e_.func) == "isinstance" and len(e_.args) == 2 and norm(e_.args[0]) == abase and not any(b.kind == "assertfail" for b, l in cn.succ):
+                                k_edges.append((cn, "T"))
+                            t_ = norm(e_)
+                            if t_ == f"{abase} is not None":
+                                n_edges.append((cn, "F"))
+                            elif t_ == f"{abase} is None":
+                                n_edges.append((cn, "T"))
+                        for st_ in ccfg.stmts(ast.Assign):
+                            if any(norm(t_) == abase for t_ in st_.ast.targets) and isinstance(st_.ast.value, ast.Constant) and st_.ast.value.value is None:
+                                n_stores.append(st_)
+                        at_ = ccfg.nodes_containing(c_)
+                        # a caller that is itself a helper receiving the node is judged at its own callers (one level)
+                        if isinstance(arg, ast.Name) and arg.id in cf.params and (cf.name.startswith("_") or cf.parent is not None) and not k_edges:
+                            continue
+                        thr = reach(ccfg, [ccfg.entry], blocked_edges=k_edges + n_edges, blocked_nodes=n_stores)
+                        if not k_edges or not at_ or any(nd in thr for nd in at_):
+                            bad_call = (cf, c_)
+                    if bad_call is None:
+                        rep.ok("R-NODE-KIND-TESTED", f, x, f"`{norm(x)}`: node handed to a helper by callers that tested it")
+                        continue
+                    rep.violation(
+                        "R-NODE-KIND-TESTED",
+                        bad_call[0],
+                        bad_call[1],
+                        f"{bad_call[0].qualname} hands `{short(bad_call[1], 50)}` a node whose kind has not been tested yet at that point, and {f.qualname} reads `{norm(x)}`: for a snapshot argument that is no call (a variable, e.g. `snapshot(ADMIN)`) "
+                        "this is an AttributeError while the changes are collected at session end",
+                        construct=f"{bad_call[0].qualname}->{f.qualname}:{norm(x)}",
+                    )
                     continue
                 # a private method reading a field of its own object (`self._ast_node.keys`): every call of it stands behind the kind test
                 if f.cls is not None and f.name.startswith("_") and not f.name.startswith("__") and f.params and base.startswith(f.params[0] + "."):
